@@ -8,8 +8,11 @@ ALL = ["C04", "C05", "C07", "C10", "C13", "C17", "C18", "C19"]
 class NS:
     """Builder for one netcode schedule; keeps the server / client clocks so that tokens get sensible timestamps."""
 
-    def __init__(self, sid, props, max_clients=2, server_addrs=1, start_ms=0):
+    def __init__(self, sid, props, max_clients=2, server_addrs=1, start_ms=0, secure=True):
         self.s = {"id": sid, "cfg": {"max_clients": max_clients, "server_addrs": server_addrs, "start_ms": start_ms, "props": props}, "steps": []}
+        if not secure:
+            # ServerAuthentication::Unsecure: all-zero connect key (token key "Z"), host list not checked
+            self.s["cfg"]["secure"] = False
         self.t = start_ms
         self.ct = {}
         self.n = 0
@@ -518,14 +521,19 @@ def proto_bit_schedules(rng, props):
 def liveness_schedules(rng, props, n, full=False):
     out = []
     for i in range(n):
-        mode = rng.choice(["handshake", "handshake", "failover", "silent_client", "silent_server", "alive", "forgery", "pending_expire", "limit", "restart"])
+        mode = rng.choice(["handshake", "handshake", "failover", "silent_client", "silent_server", "alive", "forgery", "pending_expire", "limit", "restart",
+                           "unsecure"])
         dt = rng.choice([50, 250, 300, 1000])
         timeout = rng.choice([1, 5, 5, -1])
         maxc = rng.choice([1, 2])
         two = mode == "failover"
-        sc = NS("live-%d-%s" % (i, mode), props, max_clients=maxc, server_addrs=1)
-        if mode in ("handshake", "limit"):
-            sc.token("T1", 11, timeout_s=(timeout if timeout > 0 else 5), expire_s=120)
+        sc = NS("live-%d-%s" % (i, mode), props, max_clients=maxc, server_addrs=1, secure=(mode != "unsecure"))
+        if mode in ("handshake", "limit", "unsecure"):
+            if mode == "unsecure":
+                # a self-made token (zero key) that lists a host the server does not know next to the real one, or only the real one
+                sc.token("T1", 11, timeout_s=(timeout if timeout > 0 else 5), expire_s=120, key="Z", hosts=rng.choice([(1,), (1, 7)]))
+            else:
+                sc.token("T1", 11, timeout_s=(timeout if timeout > 0 else 5), expire_s=120)
             sc.client("c1", "T1", 1)
             if mode == "limit":
                 # the limit is raised (or lowered and raised again) at run time; an extra client occupies the first slot
